@@ -39,12 +39,6 @@ Definition holds_runs (k : fkind) (ops : list fop) (runs : list run_group) : boo
    (\r \v \f \x1c \x1d \x1e \x85 U+2028 U+2029), io.StringIO only at \n.
    Inside the guard = text history, some written character is one of those, and
    the FIRST step whose observation differs from the reference is a line call. *)
-Definition is_line_op (op : fop) : bool :=
-  match op with ReadLine _ | ReadLines _ | Next | ListAll | IterAll => true | _ => false end.
-Definition odd_break (c : N) : bool := is_ubrk c && negb (N.eqb c 10).
-Definition writes_odd_break (ops : list fop) : bool :=
-  existsb (fun op => match op with Write d => existsb odd_break d | _ => false end) ops.
-
 Fixpoint first_diff_is_line (ops : list fop) (r o : list step_obs) : bool :=
   match ops, r, o with
   | op :: ops', x :: r', y :: o' =>
